@@ -31,11 +31,11 @@ def run(rep, tier, seed):
     rep.add_tlc("MC_Fit (configuration matrix; BoundsLaw assumed and checked)", res, exhaustive=True)
     rng = random.Random(seed)
     if quick:
-        # stratified: every (model, class, start) combination at least once
+        # stratified: every (model, class, start) combination three times
         by = {}
         for c in cfgs:
             by.setdefault((c["model"], c["class"], c["start"]), []).append(c)
-        pick = [rng.choice(v) for v in by.values()]
+        pick = [c for v in by.values() for c in rng.sample(v, min(3, len(v)))]
         rng.shuffle(pick)
         cfgs_run = pick
     else:
@@ -98,7 +98,7 @@ def run(rep, tier, seed):
                "(DOP853 on the specification's transcription of the catalogue model) with reference kernels; equal within 1e-9 relative "
                "counts as equal")
     rep.assume("Poisson / Gamma / NegBinom configurations whose clean trajectory is not safely positive are skipped")
-    rep.rule("%d of %d enumerated configurations run (quick: one per model x class x start)" % (len(keep), len(cfgs)))
+    rep.rule("%d of %d enumerated configurations run (quick: three per model x class x start)" % (len(keep), len(cfgs)))
     if acc == 0 and not rep.violations:
         raise report.Machinery("no configuration was accepted (vacuous)")
 
